@@ -26,6 +26,16 @@ enum VarType {
     String,
 }
 
+#[cfg(feature = "verif")]
+impl Var {
+    pub fn verif_len(&self) -> usize {
+        self.vars.len()
+    }
+    pub fn verif_dims_len(&self) -> usize {
+        self.dims.len()
+    }
+}
+
 impl Var {
     pub fn new() -> Var {
         Var::default()
